@@ -306,7 +306,9 @@ func checkE2E(c e2eCase) (h.Info, error) {
 		return h.Info{Class: "invalid-pattern"}, fmt.Errorf("PRECONDITION: pattern weight %d", len(c.Pos))
 	}
 	sep := len(r.HRP)
-	upper := s != ref.AsciiLower(s)
+	baseUpper := s != ref.AsciiLower(s)
+	baseLower := s != ref.AsciiUpper(s)
+	replUpper, replLower := false, false
 	m := []byte(s)
 	seen := map[int]bool{}
 	inHRP := 0
@@ -320,11 +322,17 @@ func checkE2E(c e2eCase) (h.Info, error) {
 			return h.Info{Class: "invalid-pattern"}, fmt.Errorf("PRECONDITION: replacement equals original at %d", p)
 		}
 		if p > sep {
+			// "other charset characters": in the spelling of the string; a string without letters may be
+			// continued in either (single) case
 			lc := nc
-			if upper && nc >= 'A' && nc <= 'Z' {
+			if nc >= 'A' && nc <= 'Z' {
 				lc = nc + 32
-			} else if upper && nc >= 'a' && nc <= 'z' {
-				return h.Info{Class: "invalid-pattern"}, fmt.Errorf("PRECONDITION: lower-case replacement in upper-case string")
+				replUpper = true
+			} else if nc >= 'a' && nc <= 'z' {
+				replLower = true
+			}
+			if (replUpper && (baseLower || replLower)) || (replLower && baseUpper) {
+				return h.Info{Class: "invalid-pattern"}, fmt.Errorf("PRECONDITION: replacement %q would make the string mixed case", nc)
 			}
 			if symOf(lc) < 0 {
 				return h.Info{Class: "invalid-pattern"}, fmt.Errorf("PRECONDITION: replacement %q not in charset", nc)
@@ -485,7 +493,7 @@ func TestWeight2Exhaustive(t *testing.T) {
 	maxLen := 40
 	n := 2
 	if h.Thorough() {
-		maxLen, n = 90, 48
+		maxLen, n = 90, 32
 	}
 	failed := false
 	h.Run(t, h.Sub[wordCase]{
